@@ -135,6 +135,14 @@ def gen_weights_case(rng):
 
 
 
+def gen_file_case(rng):
+    """file semantics of Sensors::load: labelled / unlabelled x number of numeric columns 3,4,5,6,7, non-unit weights"""
+    lab = rng.random() < 0.5; ncol = rng.choice([3, 4, 5, 6, 7, 7, 7]); n = rng.choice([1, 2, 3, 5, 8])
+    ls = [rng.randint(0, max(1, n // 2)) for _ in range(n)]
+    ws = [rng.choice([-3, -2, 2, 3, 5, 7, 9]) for _ in range(n)]
+    body = " ".join(map(str, [1 if lab else 0, ncol, n] + ls + ws))
+    return "c09 18 " + body, "c09 11 " + body, "file:%s:%dcol" % ("labelled" if lab else "unlabelled", ncol)
+
 def gen_ctor_case(rng):
     """label-based constructor: repeated labels in contiguous and NON contiguous order, all distinct, all equal"""
     n = rng.choice([1, 2, 3, 4, 6, 9]); kind = rng.choice(["distinct", "all-equal", "contiguous", "scattered", "scattered", "scattered"])
@@ -610,6 +618,17 @@ def main(replay=None):
         if False:
             ck.violation(sig, "%s on case `%s`; the model is the one the theorems of Properties_C09.v are proved about" % (msg, c),
                          dict(kind="correspondence", cases=[c], kinds=[k], model=[m], impl=[i]))
+    # file semantics of Sensors::load: which column is what, labelled and unlabelled, non-unit weights
+    if not replay or rp.get("file"):
+        fc = [tuple(x) for x in rp["file"]] if replay else [gen_file_case(ck.rng) for _ in range(400 if quick else 4000)]
+        fmo = core.run_model([b for _, b, _ in fc]); rcf, fio, _e = core.run_harness(hb, [a for a, _, _ in fc], ck.workdir, tag="file")
+        for (a, b, k), m, i in zip(fc, fmo, fio):
+            dist[k] = dist.get(k, 0) + 1
+            z, _f = core.fparse(i); mz = [int(x) for x in m.split()]
+            if z is None or (mz[0] == 0 and mz != z) or (mz[0] != 0 and z[0] == 0):
+                mism += 1
+                ck.violation("Sensors::load file semantics: weight matrix differs", "Sensors::load of a %s then getWeightsMatrix gives %s, the model (file semantics of load) %s; case `%s`" % (k, i[:150], m[:150], a),
+                             dict(kind="file", file=[[a, b, k]]))
     # the weight-matrix clause through the label-based constructors (not only the file loader)
     if not replay or rp.get("ctor"):
         cc = [tuple(x) for x in rp["ctor"]] if replay else [gen_ctor_case(ck.rng) for _ in range(300 if quick else 3000)]
